@@ -43,19 +43,34 @@ def gen(ctx):
         k = rng.random()
         if k < 0.3:
             cases.append(Merge([mk_desc(pick(), 100 + j) for j in range(rng.choice([2, 2, 3]))]))
-        elif k < 0.55:
+        elif k < 0.5:
             cases.append(Embed([mk_desc(pick(), 100 + j) for j in range(rng.choice([2, 2, 3]))],
                                rng.random() < 0.7, rng.random() < 0.7))
+        elif k < 0.55:
+            # three signatures, the LAST one declaring again (same kind, same index) leading
+            # positional parameters of the FIRST, with an unrelated one in between: the name clash
+            # must be reported as IncompatibleSignatures at whichever fold step meets it
+            a = pick()
+            pos = [q for q in a if q[1] in ('PO', 'PK')]
+            if not pos:
+                cases.append(Embed([mk_desc(pick(), 100 + j) for j in range(3)], True, True))
+            else:
+                last = list(pos[:rng.randint(1, len(pos))])
+                mid = random_sig(rng, 'efg', 3, star_names=(('args', 'kwargs'),))
+                cases.append(Embed([mk_desc(a, 100), mk_desc(mid, 101), mk_desc(last, 102)],
+                                   rng.random() < 0.85, rng.random() < 0.85))
         elif k < 0.8:
             ps = pick()
-            names = [p[0] for p in ps] + [fz]
+            # foreign names include a key the provenance map uses for its own bookkeeping ('+depths' is a
+            # legal keyword: f(**{'+depths': 1})) and another string that is not an identifier
+            names = [p[0] for p in ps] + [fz, id_of_name('+depths'), id_of_name('not-an-identifier')]
             r = rng.randint(0, 3)
             ns = [rng.choice(names) for _ in range(r)]      # duplicates possible
             cases.append(Mask(mk_desc(ps, 100), rng.randint(0, len(ps) + 2), ns,
                               [rng.random() < 0.25 for _ in range(4)]))
         else:
             o, i = pick(), pick()
-            names = [p[0] for p in i] + [fz]
+            names = [p[0] for p in i] + [fz, id_of_name('+depths')]
             ns = [rng.choice(names) for _ in range(rng.randint(0, 2))]
             cases.append(Forwards(mk_desc(o, 100), mk_desc(i, 101), rng.randint(0, 3), ns,
                                   rng.random() < 0.2, rng.random() < 0.2, rng.random() < 0.8,
